@@ -722,10 +722,88 @@ import logging
 logging.getLogger("Rx").setLevel(logging.ERROR)
 
 
+_WARMED = set()
+
+
+class _WarmAbort(Exception):
+    pass
+
+
+def _code_objects_of(mod, fname):
+    import types
+    found, stack = {}, []
+
+    def add_fn(f):
+        f = getattr(f, "__func__", f)
+        co = getattr(f, "__code__", None)
+        if co is not None and co.co_filename == fname:
+            stack.append(co)
+
+    for obj in list(vars(mod).values()):
+        if isinstance(obj, type) and getattr(obj, "__module__", None) == mod.__name__:
+            for v in list(vars(obj).values()):
+                if isinstance(v, property):
+                    for g in (v.fget, v.fset, v.fdel):
+                        if g is not None:
+                            add_fn(g)
+                else:
+                    add_fn(v)
+        else:
+            add_fn(obj)
+    while stack:
+        co = stack.pop()
+        if id(co) in found:
+            continue
+        found[id(co)] = co
+        for c in co.co_consts:
+            if isinstance(c, types.CodeType):
+                stack.append(c)
+    return list(found.values())
+
+
+def warm_opcode_tracing(fragments):
+    """CPython 3.12 keeps 'instruction' instrumentation per code object, switched on the first time a frame of it sets
+    f_trace_opcodes - and that first frame only sees the events from its next instrumentation check on.  The first
+    bytecode-level run of a process would therefore see fewer pre-emption points than every later one (and than a replay).
+    Before the first such run every code object of the files concerned is entered once under a trace function that
+    sets f_trace_opcodes and aborts the call before its first instruction."""
+    import types
+    for name, mod in list(sys.modules.items()):
+        fname = getattr(mod, "__file__", None) or ""
+        if not name.startswith("reactivex") or fname in _WARMED or not any(fr in fname for fr in fragments):
+            continue
+        _WARMED.add(fname)
+        for co in _code_objects_of(mod, fname):
+            def tracer(frame, event, arg, co=co):
+                if frame.f_code is co:
+                    frame.f_trace_opcodes = True
+                    raise _WarmAbort()
+                return None
+            try:
+                fn = types.FunctionType(co, {"__builtins__": __builtins__}, "warm", None, tuple(types.CellType() for _ in co.co_freevars))
+                args = [None] * co.co_argcount
+                kw = {n: None for n in co.co_varnames[co.co_argcount:co.co_argcount + co.co_kwonlyargcount]}
+                sys.settrace(tracer)
+                r = fn(*args, **kw)
+                if co.co_flags & 0x20:
+                    next(r)
+                elif co.co_flags & (0x80 | 0x200):
+                    r.send(None) if hasattr(r, "send") else r.asend(None).send(None)
+            except BaseException:  # noqa: BLE001 - _WarmAbort, or whatever a code object we could not enter raises
+                pass
+            finally:
+                sys.settrace(None)
+
+
 def run_sim(body, seed, cps=(), record=False, spurious_p=0.0, drift_p=0.0, trace_extra=(), wall=150.0, max_steps=400000, setup=None, opcode_files=(), stall_p=0.0):
     """Run `body(sim, shim)` as the main workload thread under a fresh simulator with reactivex patched."""
     sim = Sim(seed, cps or (), record, spurious_p, drift_p, max_steps, trace_extra)
     sim.opcode_files = tuple(opcode_files or ())
+    if sim.opcode_files:
+        import reactivex  # noqa: F401
+        if _PATCH_PLAN is None:
+            _import_all()
+        warm_opcode_tracing(sim.opcode_files)
     sim.stall_p = stall_p
     shim = make_shim(sim)
     saved = patch(sim, shim)
